@@ -62,19 +62,19 @@ inline int unusual(int site) {
 
 } // namespace opensmt::verifsim
 
-#define OSMT_SIM_CLAUSE(th, kind, ptr, n)                                                                              \
+#define OSMT_SIM_CLAUSE(th_, kind_, ptr_, n_)                                                                          \
     do {                                                                                                               \
-        if (opensmt::verifsim::hooks.clause) opensmt::verifsim::hooks.clause((th), (kind), (ptr), (n));               \
+        if (opensmt::verifsim::hooks.clause) opensmt::verifsim::hooks.clause((th_), (kind_), (ptr_), (n_));           \
     } while (0)
-#define OSMT_SIM_FRAME(ms, kind, frame, term)                                                                          \
+#define OSMT_SIM_FRAME(ms_, kind_, frame_, term_)                                                                      \
     do {                                                                                                               \
-        if (opensmt::verifsim::hooks.frame) opensmt::verifsim::hooks.frame((ms), (kind), (frame), (term));            \
+        if (opensmt::verifsim::hooks.frame) opensmt::verifsim::hooks.frame((ms_), (kind_), (frame_), (term_));        \
     } while (0)
-#define OSMT_SIM_LACONFLICT(logic, expl, coeffs)                                                                       \
+#define OSMT_SIM_LACONFLICT(logic_, expl_, coeffs_)                                                                    \
     do {                                                                                                               \
-        if (opensmt::verifsim::hooks.laConflict) opensmt::verifsim::hooks.laConflict((logic), (expl), (coeffs));      \
+        if (opensmt::verifsim::hooks.laConflict) opensmt::verifsim::hooks.laConflict((logic_), (expl_), (coeffs_));   \
     } while (0)
-#define OSMT_SIM_UNUSUAL(site) (opensmt::verifsim::unusual(site))
+#define OSMT_SIM_UNUSUAL(site_) (opensmt::verifsim::unusual(site_))
 
 #else
 
